@@ -35,8 +35,17 @@ theorem set_shared_glob (s : St) (i : Nat) (v : Val) :
   simp [St.set]
 
 /-- entering a procedure keeps the shared store -/
+theorem enterCore_glob (d : ProcDecl Stmt) (f : Nat) (vals : List Val) (s : St) :
+    (enterCore d f vals s).glob = s.glob := by
+  unfold enterCore; split <;> rfl
+
 theorem enter_glob (d : ProcDecl Stmt) (f : Nat) (vals : List Val) (s : St) : (enter d f vals s).glob = s.glob := by
-  unfold enter; split <;> rfl
+  unfold enter
+  split
+  · simp only [St.set, Bool.false_eq_true, if_false]
+    unfold St.setLocal
+    split <;> exact enterCore_glob d f vals s
+  · exact enterCore_glob d f vals s
 
 theorem setLocal_glob (s : St) (i : Nat) (v : Val) : (s.setLocal i v).glob = s.glob := by
   unfold St.setLocal; split <;> rfl
@@ -91,13 +100,58 @@ theorem shared_seen_by_callee (s : St) (i : Nat) (t : Ty) (v : Val) (h : i < s.g
 
 /-! ## (B) STATIC procedures -/
 
-theorem enter_static_locals (d : ProcDecl Stmt) (f : Nat) (vals : List Val) (s : St) (h : d.static = true) :
-    (enter d f vals s).locals = rebind (s.statics f) vals := by
-  simp [enter, h, St.locals]
+theorem enterCore_static_locals (d : ProcDecl Stmt) (f : Nat) (vals : List Val) (s : St) (h : d.static = true) :
+    (enterCore d f vals s).locals = rebind (s.statics f) vals := by
+  simp [enterCore, h, St.locals]
+
+theorem enterCore_static_self (d : ProcDecl Stmt) (f : Nat) (vals : List Val) (s : St) (h : d.static = true) :
+    (enterCore d f vals s).self = some f := by
+  simp [enterCore, h]
+
+/-- a store into a variable of the current activation, on the activation's variables -/
+theorem locals_set_local (s : St) (i : Nat) (v : Val) : (s.set ⟨false, i⟩ v).locals = s.locals.set i v := by
+  simp only [St.set, Bool.false_eq_true, if_false]
+  unfold St.setLocal St.locals
+  cases s.self <;> simp
+
+theorem self_set_local (s : St) (i : Nat) (v : Val) : (s.set ⟨false, i⟩ v).self = s.self := by
+  simp only [St.set, Bool.false_eq_true, if_false]
+  unfold St.setLocal
+  cases s.self <;> rfl
+
+/-- a STATIC FUNCTION starts on its block with the parameters rebound and the result variable at zero -/
+theorem enter_static_function_locals (d : ProcDecl Stmt) (f : Nat) (vals : List Val) (s : St) (h : d.static = true)
+    (rt : Ty) (hr : d.result = some rt) :
+    (enter d f vals s).locals = (rebind (s.statics f) vals).set d.resultSlot (zeroOf rt) := by
+  simp only [enter, h, hr]
+  rw [locals_set_local, enterCore_static_locals d f vals s h]
+
+/-- a STATIC SUB starts on its block with the parameters rebound -/
+theorem enter_static_sub_locals (d : ProcDecl Stmt) (f : Nat) (vals : List Val) (s : St) (h : d.static = true)
+    (hr : d.result = none) : (enter d f vals s).locals = rebind (s.statics f) vals := by
+  simp only [enter, h, hr]
+  exact enterCore_static_locals d f vals s h
+
+/-- a STATIC procedure starts on its block with the parameters rebound — except for the result variable of a FUNCTION,
+which starts at zero (`enter_static_function_locals`) -/
+theorem enter_static_locals (d : ProcDecl Stmt) (f : Nat) (vals : List Val) (s : St) (h : d.static = true) (x : Nat)
+    (hx : x ≠ d.resultSlot ∨ d.result = none) :
+    (enter d f vals s).locals[x]? = (rebind (s.statics f) vals)[x]? := by
+  cases hr : d.result with
+  | none => rw [enter_static_sub_locals d f vals s h hr]
+  | some rt =>
+    have hne : x ≠ d.resultSlot := by
+      rcases hx with hx | hx
+      · exact hx
+      · rw [hr] at hx; exact absurd hx (by simp)
+    rw [enter_static_function_locals d f vals s h rt hr, List.getElem?_set_ne (fun e => hne e.symm)]
 
 theorem enter_static_self (d : ProcDecl Stmt) (f : Nat) (vals : List Val) (s : St) (h : d.static = true) :
     (enter d f vals s).self = some f := by
-  simp [enter, h]
+  unfold enter
+  split
+  · rw [self_set_local]; exact enterCore_static_self d f vals s h
+  · exact enterCore_static_self d f vals s h
 
 /-- at the start of a call every non-parameter slot has the value stored in the block -/
 theorem rebind_keeps (old vals : List Val) (x : Nat) (h : vals.length ≤ x) : (rebind old vals)[x]? = old[x]? := by
@@ -446,19 +500,77 @@ theorem static_exit {P : Program} {fuel f : Nat} {args : Args} {s s' : St} {v : 
   · exact writeBack_statics_other f _ _ _ _ (by simpa [h1] using hc)
 
 /-- `static_persists`: the next call of `f` (from any state whose block of `f` is still the one the previous call left,
-with any argument values) starts with every non-parameter variable holding the value it had when the body of the
-previous call ended -/
+with any argument values) starts with every non-parameter variable — other than the result variable of a FUNCTION, which
+starts at zero — holding the value it had when the body of the previous call ended -/
 theorem static_persists {P : Program} {fuel f : Nat} {args : Args} {s s' : St} {v : Val} {d : ProcDecl Stmt}
     (hd : P.procs[f]? = some d) (hst : d.static = true) (h : call P (fuel + 1) f args s = (s', .ok v))
     (hc : NoLocalRef args ∨ s.self ≠ some f) :
     ∃ s1 vals s2 o, evalArgs P fuel args s = (s1, .ok vals) ∧
       exec P fuel d.body (enter d f vals s1) = (s2, o) ∧ returns o = true ∧
       ∀ (t : St) (vals' : List Val) (x : Nat), t.statics f = s'.statics f → vals'.length ≤ x →
-        (enter d f vals' t).locals[x]? = s2.locals[x]? := by
+        (x ≠ d.resultSlot ∨ d.result = none) → (enter d f vals' t).locals[x]? = s2.locals[x]? := by
   obtain ⟨s1, vals, s2, o, ha, hb, ho, hs', h1, h2, h3, h4⟩ := static_exit hd hst h
   refine ⟨s1, vals, s2, o, ha, hb, ho, ?_⟩
-  intro t vals' x ht hx
-  rw [enter_static_locals d f vals' t hst, rebind_keeps _ _ _ hx, ht, h4 hc]
+  intro t vals' x ht hx hxr
+  rw [enter_static_locals d f vals' t hst x hxr, rebind_keeps _ _ _ hx, ht, h4 hc]
+
+/-! ### the result of a FUNCTION that assigns nothing to its name -/
+
+/-- a call that returns, unfolded, with its value -/
+theorem call_ok_value {P : Program} {fuel f : Nat} {args : Args} {s s' : St} {v : Val} {d : ProcDecl Stmt}
+    (hd : P.procs[f]? = some d) (h : call P (fuel + 1) f args s = (s', .ok v)) :
+    ∃ s1 vals s2 o, evalArgs P fuel args s = (s1, .ok vals) ∧
+      exec P fuel d.body (enter d f vals s1) = (s2, o) ∧ returns o = true ∧
+      v = (match d.result with
+           | some rt => s2.locals.getD d.resultSlot (zeroOf rt)
+           | none => .int 0) := by
+  simp only [call, hd] at h
+  split at h
+  · simp at h
+  · next s1 vals ha =>
+    split at h
+    · next ho =>
+      refine ⟨s1, vals, _, _, ha, rfl, ho, ?_⟩
+      have := (Prod.mk.inj h).2
+      exact (Except.ok.inj this).symm
+    · simp at h
+
+/-- the result variable of a FUNCTION at the start of the body: zero / the empty string, or (slot table too short) not
+there at all — for a STATIC function by the reset in `enter`, for an ordinary one because the fresh environment is
+zero outside the parameters (`hsl`: the slot after the parameters is the result variable, of the result type) -/
+theorem enter_result_slot (d : ProcDecl Stmt) (f : Nat) (vals : List Val) (s : St) (rt : Ty) (hr : d.result = some rt)
+    (hsl : d.slots[d.params.length]? = some rt) (hlen : vals.length = d.params.length) :
+    (enter d f vals s).locals[d.resultSlot]? = some (zeroOf rt) ∨ (enter d f vals s).locals[d.resultSlot]? = none := by
+  cases hs : d.static with
+  | true =>
+    rw [enter_static_function_locals d f vals s hs rt hr]
+    by_cases hlt : d.resultSlot < (rebind (s.statics f) vals).length
+    · left; exact List.getElem?_set_self hlt
+    · right; simp only [List.getElem?_eq_none_iff, List.length_set]; omega
+  | false =>
+    left
+    have he : enter d f vals s = enterCore d f vals s := by simp [enter, hs]
+    rw [he]
+    simp only [enterCore, hs, Bool.false_eq_true, if_false, St.locals, freshEnv, ProcDecl.resultSlot]
+    rw [List.getElem?_append_right (by omega)]
+    simp [hlen, hsl]
+
+/-- `function_result_default`: a call of a FUNCTION (STATIC or not) whose body leaves the result variable as it found
+it ("assigns nothing to its name", stated semantically: `hkeep`) yields zero / the empty string.  `hsl`: the slot after
+the parameters is the result variable (`SlotsOk`); `hlen`: as many argument values as parameters -/
+theorem function_result_default {P : Program} {fuel f : Nat} {args : Args} {s s' : St} {v : Val} {d : ProcDecl Stmt}
+    {rt : Ty} (hd : P.procs[f]? = some d) (hr : d.result = some rt) (hsl : d.slots[d.params.length]? = some rt)
+    (h : call P (fuel + 1) f args s = (s', .ok v))
+    (hlen : ∀ s1 vals, evalArgs P fuel args s = (s1, .ok vals) → vals.length = d.params.length)
+    (hkeep : ∀ s1 vals s2 o, evalArgs P fuel args s = (s1, .ok vals) →
+      exec P fuel d.body (enter d f vals s1) = (s2, o) →
+      s2.locals[d.resultSlot]? = (enter d f vals s1).locals[d.resultSlot]?) :
+    v = zeroOf rt := by
+  obtain ⟨s1, vals, s2, o, ha, hb, ho, hv⟩ := call_ok_value hd h
+  rw [hr] at hv
+  simp only at hv
+  rw [hv, List.getD_eq_getElem?_getD, hkeep s1 vals s2 o ha hb]
+  rcases enter_result_slot d f vals s1 rt hr hsl (hlen s1 vals ha) with e | e <;> rw [e] <;> rfl
 
 /-! ## the frame theorem: what does not call `f` does not touch `f`'s block -/
 
@@ -542,13 +654,21 @@ theorem Inv.writeBack {f : Nat} {B : List Val} {s : St} (h : Inv f B s) (args : 
   ⟨by rw [writeBack_statics_other f args i callee s h.2]; exact h.1, by rw [writeBack_self]; exact h.2⟩
 
 /-- entering another procedure keeps `f`'s block and does not make the activation `f`'s -/
-theorem Inv.enter {f : Nat} {B : List Val} {s : St} (h : Inv f B s) (d : ProcDecl Stmt) (g : Nat) (vals : List Val)
-    (hg : g ≠ f) : Inv f B (enter d g vals s) := by
+theorem Inv.enterCore {f : Nat} {B : List Val} {s : St} (h : Inv f B s) (d : ProcDecl Stmt) (g : Nat) (vals : List Val)
+    (hg : g ≠ f) : Inv f B (enterCore d g vals s) := by
   have hfg : f ≠ g := fun e => hg e.symm
-  unfold RbModel.Proc.Ref.enter
+  unfold RbModel.Proc.Ref.enterCore
   split
   · exact ⟨by simp [hfg]; exact h.1, by simp [hg]⟩
   · exact ⟨h.1, by simp⟩
+
+/-- entering another procedure keeps `f`'s block and does not make the activation `f`'s -/
+theorem Inv.enter {f : Nat} {B : List Val} {s : St} (h : Inv f B s) (d : ProcDecl Stmt) (g : Nat) (vals : List Val)
+    (hg : g ≠ f) : Inv f B (enter d g vals s) := by
+  unfold RbModel.Proc.Ref.enter
+  split
+  · exact (h.enterCore d g vals hg).set _ _
+  · exact h.enterCore d g vals hg
 
 /-- the frame statement for one amount of fuel: started in an activation that is not `f`'s with `f`'s block = `B`, on
 syntax that calls only procedures of `N`, every function of the reference semantics ends — whatever the result — in
@@ -773,8 +893,8 @@ theorem statics_frame_call (P : Program) (N : Nat → Bool) (f : Nat) (hN : N f 
 
 /-- `static_persists_between`: a call of the STATIC procedure `f` from an activation that is not `f`'s returns; then
 ANY statement that (transitively) does not call `f` runs, with any amount of fuel and any outcome; then `f` is entered
-again, with any argument values: every non-parameter variable of `f` starts with the value it had when the body of
-the first call ended -/
+again, with any argument values: every non-parameter variable of `f` (other than the result variable of a FUNCTION,
+which starts at zero) starts with the value it had when the body of the first call ended -/
 theorem static_persists_between {P : Program} {N : Nat → Bool} {fuel f : Nat} {args : Args} {s s' : St} {v : Val}
     {d : ProcDecl Stmt} (hd : P.procs[f]? = some d) (hst : d.static = true)
     (h : call P (fuel + 1) f args s = (s', .ok v)) (hs : s.self ≠ some f)
@@ -782,12 +902,13 @@ theorem static_persists_between {P : Program} {N : Nat → Bool} {fuel f : Nat} 
     {k : Nat} {st : Stmt} {t : St} {o' : Outcome} (hc : callsOnlyS N st = true) (hk : exec P k st s' = (t, o')) :
     ∃ s1 vals s2 o, evalArgs P fuel args s = (s1, .ok vals) ∧
       exec P fuel d.body (enter d f vals s1) = (s2, o) ∧ returns o = true ∧
-      ∀ (vals' : List Val) (x : Nat), vals'.length ≤ x → (enter d f vals' t).locals[x]? = s2.locals[x]? := by
+      ∀ (vals' : List Val) (x : Nat), vals'.length ≤ x → (x ≠ d.resultSlot ∨ d.result = none) →
+        (enter d f vals' t).locals[x]? = s2.locals[x]? := by
   obtain ⟨s1, vals, s2, o, ha, hb, ho, hp⟩ := static_persists hd hst h (Or.inr hs)
   refine ⟨s1, vals, s2, o, ha, hb, ho, ?_⟩
-  intro vals' x hx
+  intro vals' x hx hxr
   have hs' : s'.self ≠ some f := by rw [call_self h]; exact hs
-  exact hp t vals' x (statics_frame P N f hN hcl k st s' t o' hs' hc hk) hx
+  exact hp t vals' x (statics_frame P N f hN hcl k st s' t o' hs' hc hk) hx hxr
 
 /-! #### non-vacuity of `static_persists_between`
 
@@ -826,10 +947,35 @@ example : ∃ s' v t o', call demoP 10 0 .nil (St.init demoP) = (s', .ok v) ∧
     ∃ s1 vals s2 o, evalArgs demoP 9 .nil (St.init demoP) = (s1, .ok vals) ∧
       exec demoP 9 (.assign ⟨false, 0⟩ .int (.bin .plus (.var ⟨false, 0⟩ .int ⟨2, 8⟩) (.lit (.int 1) ⟨2, 13⟩) .int ⟨2, 11⟩) ⟨2, 3⟩)
         (enter (demoP.procs[0]) 0 vals s1) = (s2, o) ∧ returns o = true ∧
-      ∀ (vals' : List Val) (x : Nat), vals'.length ≤ x → (enter (demoP.procs[0]) 0 vals' t).locals[x]? = s2.locals[x]? := by
+      ∀ (vals' : List Val) (x : Nat), vals'.length ≤ x →
+        (x ≠ (demoP.procs[0]).resultSlot ∨ (demoP.procs[0]).result = none) →
+        (enter (demoP.procs[0]) 0 vals' t).locals[x]? = s2.locals[x]? := by
   refine ⟨_, _, _, _, rfl, rfl, ?_⟩
   exact static_persists_between (P := demoP) (N := demoN) (f := 0) (d := demoP.procs[0]) rfl rfl rfl (by simp [St.init])
     rfl demo_closed (k := 10) (st := .callSub 1 .nil ⟨5, 1⟩) rfl rfl
+
+/-! #### non-vacuity of `function_result_default`
+
+    FUNCTION F% STATIC : END FUNCTION      (assigns nothing to its name)
+-/
+
+private def demoF : Program :=
+  { slots := [], gslots := [], data := [], body := .skip,
+    procs := [ { result := some .int, name := "F%", params := [], slots := [.int], body := .skip, pos := ⟨1, 1⟩,
+                 static := true } ] }
+
+example : ∃ s' v, call demoF 5 0 .nil (St.init demoF) = (s', .ok v) ∧ v = .int 0 := by
+  refine ⟨_, _, rfl, ?_⟩
+  refine function_result_default (P := demoF) (f := 0) (d := demoF.procs[0]) (rt := .int) (fuel := 4) (args := .nil)
+    (s := St.init demoF) rfl rfl rfl rfl ?_ ?_
+  · intro s1 vals ha
+    simp only [evalArgs] at ha
+    rw [← (Except.ok.inj (Prod.mk.inj ha).2)]; rfl
+  · intro s1 vals s2 o ha hb
+    have : s2 = enter (demoF.procs[0]) 0 vals s1 := by
+      simp only [demoF, List.getElem_cons_zero, exec] at hb
+      exact (Prod.mk.inj hb).1.symm
+    rw [this]
 
 
 end RbThm.ProcProps
